@@ -240,7 +240,18 @@ func execC08(body json.RawMessage) *kernel.Result {
 }
 
 // nameUniverse is read from the interpreter under test, not from a list of ours.
+var nameUniverseCache = map[string][]string{}
+
 func nameUniverse(config string) []string {
+	if c, ok := nameUniverseCache[config]; ok {
+		return c
+	}
+	out := nameUniverse1(config)
+	nameUniverseCache[config] = out
+	return out
+}
+
+func nameUniverse1(config string) []string {
 	env, root := c08Env(config)
 	defer closeQuietly(root)
 	set := map[string]bool{}
@@ -304,6 +315,65 @@ func genC08Names(r *kernel.RNG, tier string, i int) interface{} {
 		}
 	}
 	return sc
+}
+
+// restrictedNames: what a full interpreter binds and a sandbox (with the standard setup) does not -
+// exactly the names a sandbox must not be able to reach by any route, including as data
+var restrictedCache []string
+
+func restrictedNames() []string {
+	if restrictedCache == nil {
+		restrictedCache = restrictedNames1()
+	}
+	return restrictedCache
+}
+
+func restrictedNames1() []string {
+	full := zygo.NewZlisp()
+	full.StandardSetup()
+	sb := zygo.NewZlispSandbox()
+	sb.StandardSetup()
+	have := map[string]bool{}
+	for _, n := range sb.VerifGlobalNames() {
+		have[n] = true
+	}
+	var out []string
+	for _, n := range full.VerifGlobalNames() {
+		if !have[n] && n != "" && !strings.ContainsAny(n, " ()[]{}\"`;") {
+			out = append(out, n)
+		}
+	}
+	closeQuietly(full)
+	closeQuietly(sb)
+	sort.Strings(out)
+	return out
+}
+
+// genC08AsData: a restricted function *named as data* (string, quoted symbol, str2sym) handed to every
+// callable of the sandbox: a name-resolving fallback anywhere must not reach past the sandbox's own table
+func genC08AsData(r *kernel.RNG, tier string, i int) interface{} {
+	cfgs := []string{"bare", "std", "std-dup"}
+	cfg := cfgs[i%len(cfgs)]
+	names := nameUniverse(cfg)
+	f := names[(i/len(cfgs))%len(names)]
+	sc := &c08Scenario{Config: cfg}
+	if c08Skip[f] {
+		return sc
+	}
+	for _, u := range restrictedNames() {
+		arg := r.Pick([]string{fmt.Sprintf("[%q]", canaryFile), fmt.Sprintf("%q", canaryFile), fmt.Sprintf("[%q %q]", canaryEnv, "changed"), fmt.Sprintf("[\"echo pwned > %s/pwned\"]", canaryDir), fmt.Sprintf("[\"x\" %q]", canaryDir+"/new.txt")})
+		form := r.Pick([]string{fmt.Sprintf("%q", u), "%" + u, "(quote " + u + ")", fmt.Sprintf("(str2sym %q)", u)})
+		sc.Calls = append(sc.Calls, c08Call{Name: f, Args: form + " " + arg, Route: "direct"})
+	}
+	return sc
+}
+
+func c08AsDataCount(tier string) int {
+	n := len(nameUniverse("std")) * 3
+	if tier == "thorough" {
+		return n * 3
+	}
+	return n
 }
 
 func c08NameCount(tier string) int {
@@ -387,7 +457,7 @@ func init() {
 		Property: "C08",
 		Level:    "exploration",
 		Rule: "name universe read from the interpreter under test (every global, builtin and macro of a sandboxed and of a full interpreter, every reserved word and compiler special form) x 16 argument shapes (canary file paths as string/symbol/backtick/array/list, shell command strings, environment names, integers) " +
-			"x call routes (direct, alias, apply, map, eval of a quoted call, macro-wrapped, infix call syntax, threading, package member) x configurations {bare sandbox, sandbox+StandardSetup, each also as Duplicate and Clone}; plus whole and damaged corpus scripts run under each sandbox configuration. " +
+			"x call routes (direct, alias, apply, map, eval of a quoted call, macro-wrapped, infix call syntax, threading, package member) x configurations; every callable additionally receives each restricted function (bound in a full interpreter, absent from the sandbox) named as data (string, quoted symbol, str2sym); {bare sandbox, sandbox+StandardSetup, each also as Duplicate and Clone}; plus whole and damaged corpus scripts run under each sandbox configuration. " +
 			"Oracle: the access log of the outside-world seam (complete for package zygo by type resolution) contains no file, process, environment or exit operation, and real canaries are intact. distinct_nontrivial counts distinct (configuration, name, route) triples.",
 		Components: map[string][]string{
 			"real": {"sandbox constructor, StandardSetup, every builtin/builder/macro/special form reachable from script text"},
@@ -400,6 +470,7 @@ func init() {
 		},
 		Parts: []*kernel.Part{
 			{Name: "names", Count: c08NameCount, Generate: genC08Names, Execute: execC08, Shrink: shrinkC08},
+			{Name: "names-as-data", Count: c08AsDataCount, Generate: genC08AsData, Execute: execC08, Shrink: shrinkC08},
 			{Name: "corpus", Count: func(tier string) int {
 				if tier == "thorough" {
 					return 1500
